@@ -55,4 +55,184 @@ theorem trans_C19_confirmTargetIsZero_v2 (t : Nat) :
   simp [v2_confirmTargetIsZero, u32]
   split <;> simp_all <;> omega
 
+/-! ### SharedResource: capacity figures -/
+
+/-- number of non-nil slots of a partition list (the partitions the instance counts) -/
+def heldCount (l : List Bool) : Nat := l.count true
+
+theorem foldl_count (l : List Bool) (n : Nat) (hn : n ≤ l.length) (hl : l.length < 4294967296) :
+    (List.range n).foldl (fun (total : Int) (i : Nat) =>
+      if l.getD i false = true then (total + 1) % 4294967296 else total) 0 = (((l.take n).count true : Nat) : Int) := by
+  induction n with
+  | zero => simp
+  | succ k ih =>
+    have hk : k < l.length := by omega
+    rw [List.range_succ, List.foldl_append, ih (by omega)]
+    have hc : (l.take k).count true ≤ k := by
+      have := List.count_le_length (a := true) (l := l.take k)
+      simp at this; omega
+    rw [List.take_succ_eq_append_getElem hk, List.count_append]
+    simp only [List.foldl_cons, List.foldl_nil, List.getD_eq_getElem?_getD, List.getElem?_eq_getElem hk, Option.getD_some]
+    cases hb : l[k] <;> simp <;> omega
+
+/-- `calc()` publishes factor x (number of non-nil partitions) and touches nothing else (no uint32 overflow) -/
+theorem trans_C04_C06_calc_v2 (r : T_v2_sharedResource) (hf : 0 ≤ r.factor) (hl : r.partitions.length < 4294967296)
+    (h : r.factor * heldCount r.partitions < 4294967296) :
+    v2_sr_calc r = { r with capacity := r.factor * heldCount r.partitions } := by
+  have hfold := foldl_count r.partitions r.partitions.length (Nat.le_refl _) hl
+  rw [List.take_length] at hfold
+  simp only [v2_sr_calc, u32, heldCount] at *
+  simp only [Int.toNat_natCast, Int.natCast_pos] at *
+  rw [hfold]
+  have hnn : (0 : Int) ≤ ↑(List.count true r.partitions) * r.factor := Int.mul_nonneg (by omega) hf
+  rw [Int.emod_eq_of_lt hnn (by rw [Int.mul_comm]; exact h), Int.mul_comm]
+
+theorem trans_C04_C06_calc_v1 (r : T_v1_AzureSharedResource) (hf : 0 ≤ r.factor) (hl : r.partitions.length < 4294967296)
+    (h : r.factor * heldCount r.partitions < 4294967296) :
+    v1_sr_calc r = ({ r with capacity := r.factor * heldCount r.partitions }, r.factor * heldCount r.partitions) := by
+  have hfold := foldl_count r.partitions r.partitions.length (Nat.le_refl _) hl
+  rw [List.take_length] at hfold
+  simp only [v1_sr_calc, u32, heldCount] at *
+  simp only [Int.toNat_natCast, Int.natCast_pos] at *
+  rw [hfold]
+  have hnn : (0 : Int) ≤ ↑(List.count true r.partitions) * r.factor := Int.mul_nonneg (by omega) hf
+  rw [Int.emod_eq_of_lt hnn (by rw [Int.mul_comm]; exact h), Int.mul_comm]
+
+/-- `Capacity()` = published partition capacity + reserved capacity -/
+theorem trans_C06_Capacity_v2 (r : T_v2_sharedResource) (h0 : 0 ≤ r.capacity) (h1 : 0 ≤ r.reservedCapacity)
+    (h : r.capacity + r.reservedCapacity < 4294967296) : v2_sr_Capacity r = r.capacity + r.reservedCapacity := by
+  simp only [v2_sr_Capacity, u32]; omega
+
+theorem trans_C06_Capacity_v1 (r : T_v1_AzureSharedResource) (h0 : 0 ≤ r.capacity) (h1 : 0 ≤ r.reservedCapacity)
+    (h : r.capacity + r.reservedCapacity < 4294967296) : v1_sr_Capacity r = r.capacity + r.reservedCapacity := by
+  simp only [v1_sr_Capacity, u32]; omega
+
+/-- so after `calc()`: `Capacity() = reserved + factor x counted partitions` — the model's `LInst.capacity` -/
+theorem trans_C06_Capacity_after_calc_v2 (r : T_v2_sharedResource) (hf : 0 ≤ r.factor) (h1 : 0 ≤ r.reservedCapacity)
+    (hl : r.partitions.length < 4294967296)
+    (h : r.reservedCapacity + r.factor * heldCount r.partitions < 4294967296) :
+    v2_sr_Capacity (v2_sr_calc r) = r.reservedCapacity + r.factor * heldCount r.partitions := by
+  have hnn : (0 : Int) ≤ r.factor * ↑(heldCount r.partitions) := Int.mul_nonneg hf (by omega)
+  rw [trans_C04_C06_calc_v2 r hf hl (by omega), trans_C06_Capacity_v2] <;> simp only <;> omega
+
+/-- `MaxCapacity()`: v1 shared + reserved; v2 caps the shared part at 500 x factor -/
+theorem trans_C06_MaxCapacity_v1 (r : T_v1_AzureSharedResource) (h0 : 0 ≤ r.sharedCapacity) (h1 : 0 ≤ r.reservedCapacity)
+    (h : r.sharedCapacity + r.reservedCapacity < 4294967296) :
+    v1_sr_MaxCapacity r = r.reservedCapacity + r.sharedCapacity := by
+  simp only [v1_sr_MaxCapacity, u32]; omega
+
+theorem trans_C06_MaxCapacity_v2 (r : T_v2_sharedResource) (h0 : 0 ≤ r.sharedCapacity) (h1 : 0 ≤ r.reservedCapacity)
+    (hf : 0 ≤ r.factor) (hf2 : r.factor * 500 < 4294967296) (h : r.sharedCapacity + r.reservedCapacity < 4294967296) :
+    v2_sr_MaxCapacity r =
+      r.reservedCapacity + (if r.sharedCapacity > r.factor * 500 then r.factor * 500 else r.sharedCapacity) := by
+  simp [v2_sr_MaxCapacity, u32]
+  repeat' split
+  all_goals omega
+
+/-- the same figure as the model's `LInst.maxCapacity` -/
+theorem trans_C06_MaxCapacity_model_v2 (r : T_v2_sharedResource) (x : LInst) (hg : x.gen = .v2)
+    (h1 : r.factor = x.factor) (h2 : r.sharedCapacity = x.shared) (h3 : r.reservedCapacity = x.reserved)
+    (hf2 : x.factor * 500 < 4294967296) (h : x.shared + x.reserved < 4294967296) :
+    v2_sr_MaxCapacity r = (x.maxCapacity : Int) := by
+  have hm : x.maxCapacity = x.reserved + (if x.shared > x.factor * 500 then x.factor * 500 else x.shared) := by
+    unfold LInst.maxCapacity maxPartitions; rw [hg]
+  rw [hm, trans_C06_MaxCapacity_v2 r (by omega) (by omega) (by omega) (by omega) (by omega), h1, h2, h3]
+  by_cases hc : x.shared > x.factor * 500
+  · have hc' : (x.shared : Int) > x.factor * 500 := by omega
+    rw [if_pos hc, if_pos hc']; omega
+  · have hc' : ¬ (x.shared : Int) > x.factor * 500 := by omega
+    rw [if_neg hc, if_neg hc']; omega
+
+/-! ### SharedResource: the demand (`GiveMe`) and the partition count -/
+
+theorem ceilDivN_cast (a f : Nat) (hf : 0 < f) : ((ceilDivN a f : Nat) : Int) = ((a : Int) + f - 1) / f := by
+  unfold ceilDivN
+  rw [Int.natCast_ediv, Int.natCast_sub (by omega : 1 ≤ a + f)]; push_cast; rfl
+
+theorem ceilDivN_le (a f : Nat) (hf : 0 < f) : ceilDivN a f ≤ a := by
+  unfold ceilDivN
+  have h1 : a ≤ a * f := Nat.le_mul_of_pos_right a hf
+  have h2 : (a + 1) * f = a * f + f := Nat.succ_mul a f
+  have : (a + f - 1) / f < a + 1 := (Nat.div_lt_iff_lt_mul hf).2 (by omega)
+  omega
+
+theorem goCeilDiv_cast (a f : Nat) (hf : 0 < f) : goCeilDiv (a : Int) (f : Int) = ((ceilDivN a f : Nat) : Int) := by
+  unfold goCeilDiv
+  rw [if_neg (by omega), ceilDivN_cast a f hf]
+
+/-- `GiveMe(v)`: the target becomes ceil((v - reserved)+ / factor) — the model's `neededPartitions` -/
+theorem trans_C07_C09_GiveMe_v2 (r : T_v2_sharedResource) (v res f : Nat) (hr : r.reservedCapacity = res) (hfac : r.factor = f)
+    (hf : 0 < f) (hv : v < 4294967296) :
+    v2_sr_GiveMe r v = { r with target := ((ceilDivN (v - res) f : Nat) : Int) } := by
+  have hle := ceilDivN_le (v - res) f hf
+  have ht : (if decide ((v : Int) ≥ r.reservedCapacity) = true then u32 ((v : Int) - r.reservedCapacity) else u32 0)
+      = (((v - res : Nat)) : Int) := by
+    rw [hr]; unfold u32; split <;> simp at * <;> omega
+  simp only [v2_sr_GiveMe]
+  rw [ht, hfac, goCeilDiv_cast _ _ hf]
+  congr 1
+  unfold u32; omega
+
+theorem trans_C07_C09_GiveMe_v1 (r : T_v1_AzureSharedResource) (v res f : Nat) (hr : r.reservedCapacity = res) (hfac : r.factor = f)
+    (hf : 0 < f) (hv : v < 4294967296) :
+    v1_sr_GiveMe r v = { r with target := ((ceilDivN (v - res) f : Nat) : Int) } := by
+  have hle := ceilDivN_le (v - res) f hf
+  have ht : (if decide ((v : Int) ≥ r.reservedCapacity) = true then u32 ((v : Int) - r.reservedCapacity) else u32 0)
+      = (((v - res : Nat)) : Int) := by
+    rw [hr]; unfold u32; split <;> simp at * <;> omega
+  simp only [v1_sr_GiveMe]
+  rw [ht, hfac, goCeilDiv_cast _ _ hf]
+  congr 1
+  unfold u32; omega
+
+/-- the number of partitions provisioned: ceil(shared / factor); v2 caps it at 500 — the model's `partitionCount` -/
+theorem trans_C06_C17_partitionCount_v2 (r : T_v2_sharedResource) (sh f : Nat) (hs : r.sharedCapacity = sh) (hfac : r.factor = f)
+    (hf : 0 < f) : v2_sr_partitionCount r = ((partitionCount .v2 sh f : Nat) : Int) := by
+  simp only [v2_sr_partitionCount, hs, hfac, goCeilDiv_cast _ _ hf, partitionCount, maxPartitions]
+  by_cases hc : ceilDivN sh f > 500
+  · have hc' : ((ceilDivN sh f : Nat) : Int) > 500 := by omega
+    simp [hc, hc']
+  · have hc' : ¬ ((ceilDivN sh f : Nat) : Int) > 500 := by omega
+    simp [hc, hc']
+
+/-- v1 refuses (an error, nothing provisioned) exactly when ceil(shared / factor) exceeds 500 -/
+theorem trans_C06_C17_partitionCount_v1 (r : T_v1_AzureSharedResource) (sh f : Nat) (hs : r.sharedCapacity = sh) (hfac : r.factor = f)
+    (hf : 0 < f) :
+    v1_sr_partitionCount r = (((ceilDivN sh f : Nat) : Int), if ceilDivN sh f > maxPartitions then "PartitionsOutOfRangeError" else "") := by
+  simp only [v1_sr_partitionCount, hs, hfac, goCeilDiv_cast _ _ hf, maxPartitions]
+  by_cases hc : ceilDivN sh f > 500
+  · have hc' : ((ceilDivN sh f : Nat) : Int) > 500 := by omega
+    simp [hc, hc']
+  · have hc' : ¬ ((ceilDivN sh f : Nat) : Int) > 500 := by omega
+    simp [hc, hc']
+
+/-! ### SharedResource: live reconfiguration (C17) -/
+
+/-- v2 `clearPartitionId` is bounds-checked: an index at or beyond the (possibly truncated) list changes nothing -/
+theorem trans_C17_clearPartitionId_out_of_range_v2 (r : T_v2_sharedResource) (i : Nat) (h : r.partitions.length ≤ i) :
+    v2_sr_clearPartitionId r i = r := by
+  simp only [v2_sr_clearPartitionId]
+  split
+  · rename_i hc; simp at hc; omega
+  · rfl
+
+/-- inside the range it clears exactly that slot -/
+theorem trans_C17_clearPartitionId_in_range_v2 (r : T_v2_sharedResource) (i : Nat) (h : i < r.partitions.length) :
+    v2_sr_clearPartitionId r i = { r with partitions := r.partitions.set i false } := by
+  simp only [v2_sr_clearPartitionId]
+  split
+  · simp
+  · rename_i hc; simp at hc; omega
+
+/-- `SetReservedCapacity(v)` is visible in `Capacity()` at once -/
+theorem trans_C17_SetReservedCapacity_v2 (r : T_v2_sharedResource) (v : Nat) (hf : 0 ≤ r.factor)
+    (hl : r.partitions.length < 4294967296) (h : (v : Int) + r.factor * heldCount r.partitions < 4294967296) :
+    v2_sr_Capacity (v2_sr_SetReservedCapacity r v) = (v : Int) + r.factor * heldCount r.partitions := by
+  simp only [v2_sr_SetReservedCapacity]
+  rw [trans_C06_Capacity_after_calc_v2] <;> simp only <;> (try omega)
+
+/-- v1 `ProvisionedResource`: one configured value is both `Capacity()` and `MaxCapacity()` -/
+theorem trans_C06_ProvisionedResource (r : T_v1_ProvisionedResource) :
+    v1_pr_Capacity r = r.maxCapacity ∧ v1_pr_MaxCapacity r = r.maxCapacity := ⟨rfl, rfl⟩
+
 end GoBatcher.ExpectTrans
